@@ -170,6 +170,7 @@ func (q *QueryRangeController) Tail(w http.ResponseWriter, r *http.Request) {
 	query := r.URL.Query().Get("query")
 	if query == "" {
 		logger.Error("query parameter is required")
+		PromError(400, "query parameter is required", w)
 		return
 	}
 	defer cancel()
@@ -177,6 +178,7 @@ func (q *QueryRangeController) Tail(w http.ResponseWriter, r *http.Request) {
 	watcher, err = q.QueryRangeService.Tail(internalCtx, query)
 	if err != nil {
 		logger.Error(err)
+		PromError(400, err.Error(), w)
 		return
 	}
 	defer func() {
